@@ -77,4 +77,8 @@ Checkpoint == l % 64 = 1 \/ l > Len(Events)
 UpperSparse == Checkpoint => Upper
 UpperCellSparse == Checkpoint => UpperCell
 MergeAlgebraSparse == Checkpoint => MergeAlgebra
+LowerSparse == Checkpoint => Lower
+ExactSparse == Checkpoint => Exact
+NAddedSparse == Checkpoint => NAdded
+CellsBelowCapSparse == Checkpoint => CellsBelowCap
 =============================================================================
